@@ -1465,7 +1465,7 @@ def scripted(ctx):
                 if kind == "clean":
                     continue
                 go(scenario_close, ver, mech, kind)
-            for kind in (["fatal_s2c", "fatal_server_only", "abrupt_both"] if thorough else ["fatal_s2c"]):
+            for kind in (["fatal_s2c", "fatal_server_only", "abrupt_both"] if thorough else ["fatal_s2c", "fatal_server_only"]):
                 go(scenario_close_resumed, ver, mech, kind)
             # (server advance, client advance) around lifetime 100 / maxAge 100
             pairs = [(101, 0), (100, 0), (99, 0), (101, 50), (1000, 0)]
